@@ -5,6 +5,11 @@
    controllers.Ready.ServeHTTP (with [awaited] = the driver polled, bounded, for
    a 200 because everything it had started had ended and Finish was called),
    and what the listener on Finish's channel had received at the end.
+   HOW each probe asked (through a recorder, a kept-alive connection to a real
+   http.Server or a net/http client; method, query, headers, body, HTTP version)
+   is part of the driver's case but deliberately not of [OProbe]: the status
+   the client read is judged as a function of the startup history only
+   (Props.C16_answer_of_state_only is the model's side of that).
 
    agree  = the model, used as an acceptor that inserts WaiterSteps where
             needed ([Models.Startup.run_trace]), allows every observed status
